@@ -172,7 +172,14 @@ class SM:
 # scipy.stats t / F
 # ---------------------------------------------------------------------------
 def tq(p, df):
-  """Purified t quantile with instantiated axioms."""
+  """Purified t quantile with instantiated axioms; for a concrete level the
+  real scipy value (lifted exactly)."""
+  if not isinstance(p, SNum):
+    import scipy.stats as _ss
+    pf = float(p)
+    if pf == 0.5:
+      return z3.RealVal(0)
+    return F(float(_ss.t.ppf(pf, df)))
   pe = z3.simplify(L(p))
   v = pvar('tq', pe, int(df))
   e = eng()
